@@ -478,5 +478,35 @@ def r01_11(ctx):
     return r
 
 
+def r01_12(ctx):
+    """an ordered message's SSN is a promise to the receiver: it waits for every SSN in turn. send_data_raw may be
+    dropped at any await (a send under tokio::time::timeout, a select! arm that loses) and may fail while it waits for
+    buffer credit. If the SSN has been taken by then, it is never sent: the receiver's ordered stream waits for it for
+    ever and every later message of the channel sits in its reorder map. So: from the SSN fetch_add to the return, no
+    suspension point and no error return - only the (synchronous) queueing of the fragments."""
+    r = RuleResult("R01.12", "K4", "the SSN is taken only when nothing can suspend or fail any more before the message is queued")
+    fn = S + "send_data_raw::{closure#0}"
+    b = ctx.body(fn)
+    r.scope.append(fn)
+    fa = [bi for bi, t, p in b.calls() if p and p.endswith("::fetch_add") and t["a"] and mir.has_field(b.term_operand(t["a"][0]), "next_ssn")]
+    r.need("SSN assignment in send_data_raw", len(fa), 1)
+    be = b.back_edges()
+    for f0 in fa:
+        after = b.reachable([t for t, _ in b.succ_edges(f0)])
+        polls = [bi for bi, t, p in b.calls() if bi in after and bi not in b.cleanup and
+                 ((p or "").endswith("Future::poll") or (t["f"].get("fn") or "").endswith("Future::poll"))]
+        yields = [bi for bi in after if b.blocks[bi]["t"]["k"] == "yield" and bi not in b.cleanup]
+        errs = [bi for bi in core.err_return_blocks(b) if bi in after]
+        if polls or yields or errs:
+            what = "an await point" if (polls or yields) else "an error return"
+            where = (polls or yields or errs)[0]
+            r.violate(fn, "ssn:before-await", b.where(where),
+                      "after the SSN has been taken (%s) the send can still reach %s: a send that is cancelled or fails there "
+                      "burns the SSN and the receiver's ordered stream stalls behind the hole" % (b.where(f0), what))
+        else:
+            r.ok({"site": b.where(f0), "then": "no await point and no error return before the fragments are queued"})
+    return r
+
+
 def run(ctx):
-    return [r01_1(ctx), r01_2(ctx), r01_3(ctx), r01_4(ctx), r01_5(ctx), r01_6(ctx), r01_7(ctx), r01_8(ctx), r01_9(ctx), r01_10(ctx), r01_11(ctx)]
+    return [r01_1(ctx), r01_2(ctx), r01_3(ctx), r01_4(ctx), r01_5(ctx), r01_6(ctx), r01_7(ctx), r01_8(ctx), r01_9(ctx), r01_10(ctx), r01_11(ctx), r01_12(ctx)]
